@@ -177,6 +177,10 @@ func (r *Raft) onAppendEntriesRequest(req *appendReq, c *conn) (rpcResult, error
 			return drain(prevTermMismatch, nil)
 		}
 
+		// the reply tells the leader that everything up to prevLogIndex is
+		// stored here; a former leader may still hold that part unflushed
+		r.storage.commitLog(req.prevLogIndex)
+
 		// valid req: can we commit req.prevLogIndex ?
 		if r.canCommit(req, req.prevLogIndex, req.prevLogTerm) {
 			r.setCommitIndex(req.prevLogIndex)
